@@ -537,6 +537,32 @@ func runC09(p *core.Program, r *core.Report) {
 			walk(sl.High, nil)
 		}
 	}
+	// the descent of LongestPrefix examines every byte of the query: its loop runs while
+	// i < len(query)
+	if fLP != nil {
+		q := paramByName(fLP, "query")
+		okB := false
+		x := newPathCtx(p)
+		for _, b := range fLP.Blocks {
+			iff := path.BlockIf(b)
+			if iff == nil || len(path.NaturalLoop(b)) == 0 {
+				continue
+			}
+			for _, g := range []*ssa.If{iff} {
+				_ = g
+			}
+		}
+		for _, in := range path.Instrs(fLP) {
+			bo, ok := in.(*ssa.BinOp)
+			if !ok || bo.Op != token.LSS {
+				continue
+			}
+			if _, isPhi := bo.X.(*ssa.Phi); isPhi && q != nil && x.path(bo.Y) == "len("+q.Name()+")" && path.InCycle(bo.Block()) {
+				okB = true
+			}
+		}
+		c.ob("PT5", p.FuncName(fLP), "every byte of the query examined", c.fpos(fLP), okB, "the descent must run while i < len(query): a shorter bound never looks at the last byte, so a key equal to the query is not found")
+	}
 	// ---------------- AG2 completeness: a terminal node that was found is always reported.
 	// With every legitimate "absent" edge cut (empty key, nil node, lookup error) and the
 	// isValid test as a barrier, no return may be reachable: otherwise some path leaves the
